@@ -245,6 +245,13 @@ func runC16(args []string) int {
 		{Kind: "begin"}, {Kind: "free", P: 0}, {Kind: "commit"},
 		{Kind: "begin"}, {Kind: "alloc", N: 1}, {Kind: "setfull", P: 0, Seed: 9}, {Kind: "flush"}, {Kind: "rollback"},
 	}, 77, "")
+	// directed: a file that was created and never committed to (both initial header pages must be valid on their own),
+	// and one whose only transaction was rolled back
+	for i, cfg := range []engine.Config{{PageSize: 1024, MaxSize: 64 * 1024}, {PageSize: 4096, MaxSize: 0, InitMetaArea: 4}, {PageSize: 1024, MaxSize: 128 * 1024, Prealloc: true}} {
+		c16History(rep, m, cfg, nil, int64(860+i), "")
+		c16History(rep, m, cfg, []engine.Op{{Kind: "begin"}, {Kind: "alloc", N: 3}, {Kind: "setfull", P: 0, Seed: 4}, {Kind: "flush"}, {Kind: "rollback"}}, int64(865+i), "")
+		rep.count("B:scenario/fresh-file-without-a-commit", 2)
+	}
 	// directed: a file that extends beyond a lowered limit; the newest commit frees the pages at the end of the file
 	// (the file may be truncated only as far as BOTH headers allow: the older header is the fall-back)
 	for v := 0; v < 2; v++ {
@@ -262,6 +269,13 @@ func runC16(args []string) int {
 		ops = append(ops, engine.Op{Kind: "setroot", P: 1}, engine.Op{Kind: "commit"})
 		c16History(rep, m, engine.Config{PageSize: 1024, MaxSize: []uint64{0, 256 * 1024}[v], InitMetaArea: 4}, ops, int64(880+v), "")
 		rep.count("B:scenario/file-beyond-its-limit-frees-its-end", 1)
+		// ... followed by a write transaction that changes nothing and is rolled back / closed: its truncation of the
+		// file has to respect the older header as well
+		for t, end := range []string{"rollback", "close"} {
+			ops2 := append(append([]engine.Op{}, ops...), engine.Op{Kind: "begin"}, engine.Op{Kind: end})
+			c16History(rep, m, engine.Config{PageSize: 1024, MaxSize: []uint64{0, 256 * 1024}[v], InitMetaArea: 4}, ops2, int64(890+2*v+t), "")
+			rep.count("B:scenario/file-beyond-its-limit-frees-its-end-then-empty-"+end, 1)
+		}
 	}
 	for h := 0; h < nB; h++ {
 		if rep.outOfTime() {
